@@ -93,10 +93,31 @@
                            (`module_slot_interferes`). `slots_in_frame_on_tree`
                            is the generated obligation.
 
+  T8                       process-global tables while other threads compile /
+                           build runtimes, and several runtimes in one process.
+                           Facts (target `c12globals`): the sections (acquisition
+                           + lookup / insert operations) of every accessor of a
+                           lock-shaped `static`, cells inside table entries, the
+                           source of the Roto name in every arm of
+                           `rust_type_to_roto_type`. Machine `Model/ConcIntern`:
+                           get-or-insert under all schedules —
+                           `checked_get_or_insert_sequential` vs
+                           `unchecked_get_or_insert_duplicates`;
+                           `global_insert_section_alone`;
+                           `interner_observations_consistent` (the checker the
+                           driver runs on the real interner's observations);
+                           `names_per_runtime_isolated` vs
+                           `name_cache_leaks_between_runtimes`; generated
+                           obligations `globals_upgrades_rechecked_on_tree`,
+                           `globals_inserts_exclusive_on_tree`,
+                           `globals_entries_frozen_on_tree`,
+                           `names_resolved_per_runtime_on_tree`.
+
   Not modelled (exercised by the stress harness only): data races inside the
   machine code itself (T5's machine is at the level of LIR instructions; that a
   Cranelift explicit stack slot is memory of the running activation is trusted —
-  that slot variables ARE such slots is T7), the `symbol_table` interner.
+  that slot variables ARE such slots is T7). The source of the external
+  `symbol_table` interner is not modelled; its contract is checked (T8).
 -/
 import RotoV.Lemmas.Conc
 import RotoV.Lemmas.ConcShare
@@ -1552,6 +1573,15 @@ theorem get_or_insert_two_sections_finish (r : Bool) (key : Nat → Nat) (s : In
     (s.pc t = .start → (Intern.step r key s t).pc t = .missed ∨ ∃ i, (Intern.step r key s t).pc t = .done i)
     ∧ (s.pc t = .missed → ∃ i, (Intern.step r key s t).pc t = .done i) :=
   step_progress r key s t
+
+/-- **T8 (a), no operation is lost or stuck.** Under every schedule — checked or
+not — a thread that got its two sections has finished with an identifier, and a
+finished thread keeps it whatever the others do afterwards (so the conclusions
+of `checked_get_or_insert_sequential` are about all threads of a compilation
+that returned). -/
+theorem get_or_insert_finishes (r : Bool) (key : Nat → Nat) (tbl : List Nat) (sched : List Nat) (t : Nat)
+    (h : 2 ≤ sched.count t) : ∃ i, (Intern.run r key (Intern.init tbl) sched).pc t = .done i :=
+  (run_finishes r key sched (Intern.init tbl) t).1 rfl h
 
 /-- the semantic reading of the decision `globalsRecheck`: in every function
 that touches a lock-shaped global, a section that inserts after an earlier
